@@ -50,7 +50,7 @@ struct SysvGraphs {
 }
 impl Space for SysvGraphs {
     fn name(&self) -> String {
-        format!("SysVHashTable::find on every chain array chain[0..{n}] -> 0..{n} (all {n}^{n} functional graphs: every cycle length, self-loops) x every bucket head x present/absent name", n = self.n)
+        format!("SysVHashTable::find on every chain array chain[0..{n}] -> 0..{n} (all {n}^{n} functional graphs: every cycle length, self-loops) x every bucket head x present/absent name x symbol names {{all readable, none readable, every other one readable}}", n = self.n)
     }
     fn size(&self) -> u64 {
         (self.n as u64).pow(self.n) * self.n as u64
@@ -76,9 +76,13 @@ impl Space for SysvGraphs {
                 sect.extend_from_slice(&w);
             }
             let (strs, offs) = build_strtab(&names);
-            let symb = build_symtab(enc, &offs);
             let e = if enc.order == Order::Lsb { AnyEndian::Little } else { AnyEndian::Big };
             let class = class_of(enc);
+            // the same graph three times: every name readable, no name readable (offsets beyond the
+            // string table), names readable on even symbols only
+            for mode in 0..3u64 {
+            let offs2: Vec<u32> = offs.iter().enumerate().map(|(i, o)| if mode == 1 || (mode == 2 && i % 2 == 1) { strs.len() as u32 + 5 + i as u32 } else { *o }).collect();
+            let symb = build_symtab(enc, &offs2);
             let symtab = SymbolTable::new(e, class, &symb);
             let strtab = StringTable::new(&strs);
             for name in [&b"zz"[..], &names[(n - 1) as usize][..], &b""[..]] {
@@ -90,6 +94,7 @@ impl Space for SysvGraphs {
                     })
                 });
                 dig.u64(r.flatten().unwrap_or(99));
+            }
             }
         }
         out.nontrivial(dig.get() ^ idx);
